@@ -73,7 +73,7 @@ func (g *wasmGen) add(scn, fn, cls string, probe bool, args []JArg, fill func(*w
 }
 
 var wasmDigits = []string{"6", "8", "9", "10", "7", "x"}
-var wasmAlgs = []string{"SHA1", "SHA256", "SHA512", "sha1", "MD5"}
+var wasmAlgs = []string{"SHA1", "SHA256", "SHA512", "SHA256", "SHA512", "sha1", "sha256", "sha512", "Sha512", "MD5"}
 
 func (g *wasmGen) key() ([]byte, string) {
 	k := g.c.someKey()
@@ -129,7 +129,7 @@ func (g *wasmGen) valHOTP(tag string, probe bool) {
 		ctr = uint64(c.rng.Intn(12)) // windows reaching below zero
 	}
 	s := uint64(c.rng.Intn(11))
-	d, a := wasmDigits[c.rng.Intn(4)], wasmAlgs[c.rng.Intn(3)]
+	d, a := wasmDigits[c.rng.Intn(len(wasmDigits))], wasmAlgs[c.rng.Intn(len(wasmAlgs))]
 	dist := c.rng.Intn(2*int(s)+5) - int(s) - 2
 	code := refHOTP(k, ctr+uint64(int64(dist)), int(otp.DigitsFromStr(d)), int(otp.AlgorithmFromStr(a)))
 	if c.rng.Intn(6) == 0 {
@@ -155,7 +155,7 @@ func (g *wasmGen) valTOTP(tag string, probe bool) {
 	if ts/per < s+3 {
 		ts = (s + 3 + uint64(c.rng.Intn(1000))) * per
 	}
-	d, a := wasmDigits[c.rng.Intn(4)], wasmAlgs[c.rng.Intn(3)]
+	d, a := wasmDigits[c.rng.Intn(len(wasmDigits))], wasmAlgs[c.rng.Intn(len(wasmAlgs))]
 	dist := c.rng.Intn(2*int(s)+5) - int(s) - 2
 	code := refHOTP(k, ts/per+uint64(int64(dist)), int(otp.DigitsFromStr(d)), int(otp.AlgorithmFromStr(a)))
 	if c.rng.Intn(6) == 0 {
